@@ -53,13 +53,16 @@ def affine_nd(rng, n, box=False, names=False):
     return f
 
 
-def imaging(rng, units=False, box=True, distortion=False, ra=None, dec=None):
+def imaging(rng, units=False, box=True, distortion=False, ra=None, dec=None, ang=None):
     """2-D celestial TAN imaging WCS; with `distortion` there is no analytic inverse"""
     u, coord, models, Time, cf, wcs = _imports()
     ra = rng.uniform(0, 360) if ra is None else ra
     dec = rng.uniform(-70, 70) if dec is None else dec
     scale = 10 ** rng.uniform(-5, -3.3)
-    ang = rng.uniform(0, 360)
+    # the iterative solver is designed for pixel axes aligned with the sky axes: family members without analytic
+    # inverse are aligned (either parity); the others get any rotation
+    if ang is None:
+        ang = rng.choice([0.0, 180.0]) if distortion else rng.uniform(0, 360)
     crpix = (rng.uniform(100, 900), rng.uniform(100, 900))
     if units:
         tr = (models.Shift(-crpix[0] * u.pix) & models.Shift(-crpix[1] * u.pix) |
